@@ -1012,7 +1012,8 @@ class ParserField:
                 context.handle_error(error)
             return unprovided
 
-    def parse_value(self, value, context: RuntimeContext):
+    def parse_value(self, value, context: RuntimeContext, excluded: set = None):
+        # excluded: a set that receives the name of this field if its value is dropped by an 'exclude' policy
         if self.field.deprecated:
             to = (
                 f", use {repr(self.deprecated_to)} instead"
@@ -1088,6 +1089,8 @@ class ParserField:
                         context.collect_waring(error.formatted_message)
                     # return default if provided
                     # return unprovided if no default is set
+                    if excluded is not None:
+                        excluded.add(self.name)
                     return self.get_default(options=context.options, defer=False)
                 elif error_option == context.options.PRESERVE:
                     context.collect_waring(error.formatted_message)
